@@ -1,9 +1,207 @@
-import SynthVerif.Model.Adsr
-import SynthVerif.Model.Lfo
-import SynthVerif.Model.Quantizer
-import SynthVerif.Model.Midi
-import SynthVerif.Model.Glide
-import SynthVerif.Model.Ribbon
+import SynthVerif.Props.C11
+import SynthVerif.Props.Circle
+/-!
+# C12 — LFO sine and triangle are continuous, including across the cycle wrap
+
+`k` = number of phase-counter steps between two reads (a tick advances by `inc`, modulo 2^24; `C11.tick_advance`).
+* `triangle_step`: |Δtriangle| ≤ 4·k/2^24 — exactly, wrap included (the triangle values are exact, C10).
+* `sine_step`: |Δsine| ≤ (1024·D)·k/2^24 + 2^-23 + 2^-30, with `D` the kernel-checked bound on the height of every table
+  cell *including the cell that wraps from the last entry back to the first*; `1024·D = 6.295552 ≤ 2π·1.002`
+  (`C12Pi.slope_le`), and `2^-23 + 2^-30 < 2·2^-23` = two f32 ulps.  The sine is the rounded image of a continuous
+  piecewise-linear interpolant: no staircase, no glitch at the wrap.
+-/
 namespace C12
-theorem placeholder_to_be_replaced : True := trivial
+open F32
+
+/-! ### triangle -/
+
+/-- the exact triangle wave as a function of the phase counter -/
+def tri (a : ℕ) : ℚ :=
+  if a < 2 ^ 22 then 4 * ((a:ℚ) / 2 ^ 24) else if a < 3 * 2 ^ 22 then 2 - 4 * ((a:ℚ) / 2 ^ 24) else 4 * ((a:ℚ) / 2 ^ 24) - 4
+
+theorem tri_is_triangle (l : Lfo) (h : C10.Ok l) : (l.get .triangle).val = tri l.pa.acc :=
+  (C10.triangle_exact l h).2
+
+theorem tri_adjacent (a : ℕ) (ha : a < 2 ^ 24) : |tri ((a + 1) % 2 ^ 24) - tri a| ≤ 4 / 2 ^ 24 := by
+  have h24 : (2:ℚ) ^ 24 = 16777216 := by norm_num
+  by_cases hw : a + 1 = 2 ^ 24
+  · -- the wrap
+    have : (a + 1) % 2 ^ 24 = 0 := by rw [hw]; simp
+    rw [this]
+    have ha' : a = 2 ^ 24 - 1 := by omega
+    subst ha'
+    simp only [tri]; norm_num
+  · have hlt : a + 1 < 2 ^ 24 := by omega
+    rw [Nat.mod_eq_of_lt hlt]
+    have hc : ((a + 1 : ℕ) : ℚ) = (a:ℚ) + 1 := by push_cast; ring
+    simp only [tri, hc, h24]
+    have q0 : (0:ℚ) ≤ a := by positivity
+    by_cases c1 : a + 1 < 2 ^ 22
+    · have c1' : a < 2 ^ 22 := by omega
+      simp only [c1, c1', ↓reduceIte]
+      rw [abs_le]; constructor <;> (ring_nf; norm_num)
+    · by_cases c1' : a < 2 ^ 22
+      · have ha : a = 2 ^ 22 - 1 := by omega
+        have c3 : a + 1 < 3 * 2 ^ 22 := by omega
+        simp only [c1, c1', c3, ↓reduceIte]
+        subst ha; norm_num
+      · by_cases c3 : a + 1 < 3 * 2 ^ 22
+        · have c3' : a < 3 * 2 ^ 22 := by omega
+          simp only [c1, c1', c3, c3', ↓reduceIte]
+          rw [abs_le]; constructor <;> (ring_nf; norm_num)
+        · by_cases c3' : a < 3 * 2 ^ 22
+          · have ha : a = 3 * 2 ^ 22 - 1 := by omega
+            simp only [c1, c1', c3, c3', ↓reduceIte]
+            subst ha; norm_num
+          · simp only [c1, c1', c3, c3', ↓reduceIte]
+            rw [abs_le]; constructor <;> (ring_nf; norm_num)
+
+/-- **triangle**: moving the phase counter by `k` steps (wrapping allowed) changes the triangle by at most 4·k/2^24 -/
+theorem triangle_step (l l' : Lfo) (h : C10.Ok l) (h' : C10.Ok l') (k : ℕ)
+    (hk : l'.pa.acc = (l.pa.acc + k) % 2 ^ 24) :
+    |(l'.get .triangle).val - (l.get .triangle).val| ≤ 4 * (k:ℚ) / 2 ^ 24 := by
+  rw [tri_is_triangle l h, tri_is_triangle l' h', hk]
+  have := circle_lipschitz (2 ^ 24) (by norm_num) tri (4 / 2 ^ 24) tri_adjacent l.pa.acc k h.acc
+  calc |tri ((l.pa.acc + k) % 2 ^ 24) - tri l.pa.acc| ≤ k * (4 / 2 ^ 24) := this
+    _ = 4 * (k:ℚ) / 2 ^ 24 := by ring
+
+/-! ### sine -/
+
+/-- bound on the height of one table cell: 1024·D = 6.295552 -/
+def D : ℚ := 6148 / 1000000
+
+def slopeOk (b0 b1 : ℕ) : Bool := decide (|(ofBits b1).val - (ofBits b0).val| ≤ D)
+
+theorem sine_slopes : allPairs slopeOk Gen.sineBitsL = true := by decide +kernel
+theorem sine_wrap_slope : slopeOk (Gen.sineBitsL.getD 1023 0) (Gen.sineBitsL.getD 0 0) = true := by decide +kernel
+
+/-- table entries as rationals -/
+def Tq (i : ℕ) : ℚ := (ofBits (Gen.sineBitsL.getD i 0)).val
+def nxt (i : ℕ) : ℕ := (i + 1) % 1024
+
+theorem cell_height (i : ℕ) (hi : i < 1024) : |Tq (nxt i) - Tq i| ≤ D := by
+  unfold Tq nxt
+  by_cases h : i + 1 < 1024
+  · rw [Nat.mod_eq_of_lt h]
+    have := allPairs_get slopeOk Gen.sineBitsL sine_slopes i (by rw [C10.sine_len]; exact h)
+    simpa [slopeOk] using this
+  · have : i = 1023 := by omega
+    subst this
+    simpa [slopeOk] using sine_wrap_slope
+
+/-- the continuous piecewise-linear curve the sine output is sampled from -/
+def L (a : ℕ) : ℚ := idealInterp Tq nxt a
+
+theorem L_adjacent (a : ℕ) (ha : a < 2 ^ 24) : |L ((a + 1) % 2 ^ 24) - L a| ≤ D / 2 ^ 14 := by
+  have hi : a / 2 ^ 14 < 1024 := by omega
+  have hcell := cell_height (a / 2 ^ 14) hi
+  have key : L ((a + 1) % 2 ^ 24) - L a = (Tq (nxt (a / 2 ^ 14)) - Tq (a / 2 ^ 14)) / 2 ^ 14 := by
+    unfold L idealInterp
+    by_cases hb : a % 2 ^ 14 = 2 ^ 14 - 1
+    · -- into the next cell (possibly wrapping to cell 0)
+      have h1 : ((a + 1) % 2 ^ 24) / 2 ^ 14 = nxt (a / 2 ^ 14) := by unfold nxt; omega
+      have h2 : ((a + 1) % 2 ^ 24) % 2 ^ 14 = 0 := by omega
+      rw [h1, h2, hb]
+      push_cast; ring
+    · have h0 : (a + 1) % 2 ^ 24 = a + 1 := by omega
+      have h1 : (a + 1) / 2 ^ 14 = a / 2 ^ 14 := by omega
+      have h2 : (a + 1) % 2 ^ 14 = a % 2 ^ 14 + 1 := by omega
+      rw [h0, h1, h2]
+      push_cast; ring
+  rw [key, abs_div, abs_of_pos (by positivity : (0:ℚ) < 2 ^ 14)]
+  exact div_le_div_of_nonneg_right hcell (by positivity)
+
+/-- the rounded sample is within 2^-24 + 2^-30 of the ideal curve -/
+theorem sine_near_L (l : Lfo) (h : C10.Ok l) : |(l.get .sine).val - L l.pa.acc| ≤ 2 ^ (-24:ℤ) + 2 ^ (-30:ℤ) := by
+  have hi := PhaseAcc.index_lt l.pa h.tb h.ib h.acc
+  have hidx : l.pa.index = l.pa.acc / 2 ^ 14 := by unfold PhaseAcc.index; rw [h.tb, h.ib]
+  obtain ⟨f1, f2⟩ := PhaseAcc.fraction_exact l.pa h.tb h.ib
+  have hc := C10.sine_cell_ok l.pa.index hi
+  simp only [C10.cellOk, Bool.and_eq_true, decide_eq_true_eq] at hc
+  obtain ⟨⟨⟨⟨⟨⟨⟨c1, c2⟩, c3⟩, c4⟩, c5⟩, c6⟩, c7⟩, c8⟩ := hc
+  have hf0 : 0 ≤ l.pa.fraction.val := by rw [f2]; positivity
+  have hf1 : l.pa.fraction.val ≤ 1 := by
+    rw [f2, div_le_one (by positivity)]
+    have : l.pa.acc % 2 ^ 14 < 2 ^ 14 := Nat.mod_lt _ (by norm_num)
+    exact_mod_cast le_of_lt this
+  have hh := cell_height l.pa.index hi
+  unfold Tq nxt at hh
+  simp only [Lfo.get, C10.lfo_bits.2.2, C10.sineAt_eq]
+  set y0 := (ofBits (Gen.sineBitsL.getD l.pa.index 0)) with hy0
+  set y1 := (ofBits (Gen.sineBitsL.getD ((l.pa.index + 1) % 1024) 0)) with hy1
+  obtain ⟨v1, v2⟩ := linearInterp_val (y0 := y0) (y1 := y1) (f := l.pa.fraction) c1 c2 f1
+    (by rw [abs_le]; constructor <;> linarith) (by rw [abs_le]; constructor <;> linarith) hf0 hf1
+  rw [v2]
+  have hL : L l.pa.acc = y0.val + (y1.val - y0.val) * l.pa.fraction.val := by
+    unfold L idealInterp Tq nxt
+    rw [← hidx, f2]; ring
+  rw [hL]
+  set f := l.pa.fraction.val
+  set d := y1.val - y0.val with hd
+  have hD : (D:ℚ) < 2 ^ (-7:ℤ) := by unfold D; norm_num
+  -- three roundings
+  have e1 : |rnd d - d| ≤ 2 ^ (-32:ℤ) := by
+    have := rnd_err (x := d) (k := -7) (by norm_num) (lt_of_le_of_lt hh hD)
+    norm_num at this ⊢; exact this
+  have hrd : |rnd d| ≤ 2 ^ (-7:ℤ) := abs_rnd_le (le_of_lt (lt_of_le_of_lt hh hD)) (rep_pow2 (by norm_num))
+  have hprod : |rnd d * f| ≤ 2 ^ (-7:ℤ) := by
+    rw [abs_mul, abs_of_nonneg hf0]
+    calc |rnd d| * f ≤ 2 ^ (-7:ℤ) * 1 := mul_le_mul hrd hf1 hf0 (by positivity)
+      _ = 2 ^ (-7:ℤ) := by ring
+  have e2 : |rnd (rnd d * f) - rnd d * f| ≤ 2 ^ (-31:ℤ) := by
+    have := rnd_err (x := rnd d * f) (k := -6) (by norm_num) (lt_of_le_of_lt hprod (by norm_num))
+    norm_num at this ⊢; exact this
+  have hp2 : |rnd (rnd d * f)| ≤ 2 ^ (-7:ℤ) := abs_rnd_le hprod (rep_pow2 (by norm_num))
+  have hsum : |y0.val + rnd (rnd d * f)| < 2 ^ (1:ℤ) := by
+    have a1 := abs_add_le y0.val (rnd (rnd d * f))
+    have a2 : |y0.val| ≤ 1 := by rw [abs_le]; constructor <;> linarith
+    have : (2:ℚ) ^ (-7:ℤ) < 1 := by norm_num
+    norm_num; linarith
+  have e3 : |rnd (y0.val + rnd (rnd d * f)) - (y0.val + rnd (rnd d * f))| ≤ 2 ^ (-24:ℤ) := by
+    have := rnd_err (x := y0.val + rnd (rnd d * f)) (k := 1) (by norm_num) hsum
+    norm_num at this ⊢; exact this
+  -- combine
+  have e1' : |(rnd d - d) * f| ≤ 2 ^ (-32:ℤ) := by
+    rw [abs_mul, abs_of_nonneg hf0]
+    calc |rnd d - d| * f ≤ 2 ^ (-32:ℤ) * 1 := mul_le_mul e1 hf1 hf0 (by positivity)
+      _ = 2 ^ (-32:ℤ) := by ring
+  have split : rnd (y0.val + rnd (rnd d * f)) - (y0.val + d * f) =
+      (rnd (y0.val + rnd (rnd d * f)) - (y0.val + rnd (rnd d * f))) + (rnd (rnd d * f) - rnd d * f) + (rnd d - d) * f := by ring
+  rw [split]
+  have t1 := abs_add_le ((rnd (y0.val + rnd (rnd d * f)) - (y0.val + rnd (rnd d * f))) + (rnd (rnd d * f) - rnd d * f)) ((rnd d - d) * f)
+  have t2 := abs_add_le (rnd (y0.val + rnd (rnd d * f)) - (y0.val + rnd (rnd d * f))) (rnd (rnd d * f) - rnd d * f)
+  have num : (2:ℚ) ^ (-31:ℤ) + 2 ^ (-32:ℤ) ≤ 2 ^ (-30:ℤ) := by norm_num
+  linarith
+
+/-- **sine**: moving the phase counter by `k` steps (wrapping allowed) changes the sine by at most
+`1024·D·k/2^24` plus two roundings -/
+theorem sine_step (l l' : Lfo) (h : C10.Ok l) (h' : C10.Ok l') (k : ℕ)
+    (hk : l'.pa.acc = (l.pa.acc + k) % 2 ^ 24) :
+    |(l'.get .sine).val - (l.get .sine).val| ≤ (1024 * D) * (k:ℚ) / 2 ^ 24 + (2 ^ (-23:ℤ) + 2 ^ (-29:ℤ)) := by
+  have n1 := sine_near_L l h
+  have n2 := sine_near_L l' h'
+  have lip := circle_lipschitz (2 ^ 24) (by norm_num) L (D / 2 ^ 14) L_adjacent l.pa.acc k h.acc
+  rw [← hk] at lip
+  have split : (l'.get .sine).val - (l.get .sine).val =
+      ((l'.get .sine).val - L l'.pa.acc) + (L l'.pa.acc - L l.pa.acc) - ((l.get .sine).val - L l.pa.acc) := by ring
+  rw [split]
+  have t1 := abs_sub ((l'.get .sine).val - L l'.pa.acc + (L l'.pa.acc - L l.pa.acc)) ((l.get .sine).val - L l.pa.acc)
+  have t2 := abs_add_le ((l'.get .sine).val - L l'.pa.acc) (L l'.pa.acc - L l.pa.acc)
+  have e : (k:ℚ) * (D / 2 ^ 14) = (1024 * D) * (k:ℚ) / 2 ^ 24 := by norm_num; ring
+  have num : (2:ℚ) ^ (-24:ℤ) + 2 ^ (-30:ℤ) + (2 ^ (-24:ℤ) + 2 ^ (-30:ℤ)) = 2 ^ (-23:ℤ) + 2 ^ (-29:ℤ) := by norm_num
+  rw [← e, ← num]
+  generalize (2:ℚ) ^ (-24:ℤ) = ε at *
+  generalize (2:ℚ) ^ (-30:ℤ) = δ at *
+  linarith
+
+/-- the slope constant and the rounding slack in the units of the property text -/
+theorem constants : 1024 * D = 6.295552 ∧ (2:ℚ) ^ (-23:ℤ) + 2 ^ (-29:ℤ) ≤ 2 * 2 ^ (-23:ℤ) := by
+  unfold D; norm_num
+
+/-- a tick of the oscillator is such a move with `k = inc` -/
+theorem tick_moves (l l' : Lfo) (h : C10.Ok l) (ht : l.tick = some l') :
+    l'.pa.acc = (l.pa.acc + l.pa.inc) % 2 ^ 24 := by
+  have := (C11.tick_advance l l' ht).1
+  rwa [h.tb] at this
+
 end C12
